@@ -86,8 +86,6 @@ class QSpec:
                 return False        # a statement with both an INSERT and an UPDATE target is no statement
             if any(t[0] == "str" for t in terms) and not (self.insert or self.update) and self.delete and not self.frm:
                 return False
-            if any(t[0] == "str" or rfields(t) for t in terms) and any(j[1] is None for j in self.joins):
-                return False        # reads join.criterion of a USING / CROSS join
         return True
 
     # -- an un-aliased sub-query is named sq<n> by the statement that selects from / joins it --
@@ -222,6 +220,9 @@ class QSpec:
         if t in [T(x) for x in self.frm]:
             return True
         for j in self.joins:
+            # a joined table (ON, USING or CROSS join) and the tables its criterion names
+            if j[0][0] == "tab" and t == T(j[0]):
+                return True
             if j[1] and t in [T(x) for x in j[1]]:
                 return True
         return False
@@ -620,6 +621,8 @@ def detail(case, spec, call, verdict, pred, actual):
         return "after-empty-name" if (spec.target[1] == "" and spec.target[0] not in ("table", "database")) else "other"
     if k == "on_cluster" and verdict == "missed":
         return "after-empty-name" if spec.cluster == "" else "other"
+    if k == "returning" and verdict in ("spurious", "wrong-class") and actual == "AttributeError" and any(j[1] is None for j in spec.joins):
+        return "join-without-criterion"      # j.criterion read on a USING / CROSS join
     if k == "returning":
         eff = spec._effective(call[1])
         if verdict == "missed":
